@@ -15,7 +15,8 @@ inductive CliState where
 deriving Repr, DecidableEq
 
 structure Net where
-  unixSocket : Bool                 -- address kind: Unix path (unlink + bind) or TCP port (exclusive bind)
+  unixSocket : Bool                 -- `true`: the UNREPAIRED Unix-path bind (unlink whatever is there, then bind); `false`: an exclusive bind —
+                                    -- a TCP port, and since fix F-C20-a also a Unix path (lock file, liveness probe, only then unlink + bind)
   bound : Option Nat                -- which server the address currently leads to
   servers : List SrvState           -- index = server id
   clients : List CliState           -- index = client id
@@ -32,7 +33,7 @@ def Net.init (unixSocket : Bool) (nClients : Nat) : Net :=
 
 /-- what `bind` does to the address table: (new owner, outcome for the binding server) -/
 def bindOutcome (unixSocket : Bool) (bound : Option Nat) (s : Nat) : Option Nat × SrvState :=
-  if unixSocket then (some s, .serving)            -- remove_file + bind: always succeeds
+  if unixSocket then (some s, .serving)            -- remove_file + bind: always succeeds (before fix F-C20-a)
   else match bound with
     | none => (some s, .serving)
     | some b => (some b, .exitedAddrInUse)
@@ -182,7 +183,7 @@ theorem tcp_singleton (k : Nat) (as : List SAct) (s1 s2 : Nat)
   rw [e1] at e2
   exact Option.some.inj e2
 
-/-- C20 negative result for Unix-socket addressing: two clients, both refused, both servers end up serving;
+/-- C20 negative result for the unrepaired Unix-socket bind (F-C20-a, fixed): two clients, both refused, both servers end up serving;
     the first one is unreachable but alive -/
 theorem unix_second_server :
     let n := srun (Net.init true 2) [.connect 0, .connect 1, .bind 0, .bind 1]
